@@ -17,6 +17,8 @@ def check(prog, rep):
     Z.check_derived_stats(prog, rep, m, fs, 'stats[dask]')
     Z.check_global_ids(prog, rep, m, 'stats/crosstab[dask]')
     Z.check_crosstab_merge(prog, rep, m, 'crosstab[dask]')
+    from ..sharedrules import check_validate_arrays
+    check_validate_arrays(prog, rep, 'Z9-helper', 'validate_arrays')
     Z.check_alignment(prog, rep, m, 'stats', 'stats[dask]')
     Z.check_alignment(prog, rep, m, 'crosstab', 'crosstab[dask]')
     dask_side = [f for f in allf if 'dask' in f.qualname or (f.jit is not None and f.jit.kind == 'delayed')]
@@ -31,4 +33,5 @@ def check(prog, rep):
     rep.floor('Z7', 2)
     rep.floor('Z8', 3)
     rep.floor('Z9', 2)
+    rep.floor('Z9-helper', 2)
     rep.floor('Z2', 2)
